@@ -266,6 +266,14 @@ Section TreeOps.
     let off := 8 + nextPage a * ps in
     mkT (root st) (mkAlloc (nextPage a) (freeList a) (leafKeys a) (pagesFree a) off off) (depth st).
 
+  (* same poke leaving room for exactly [slack] more pages (curSz = offset + slack*pageSize + 1: Grow re-allocates
+     when offset + n >= curSz), so that the (slack+1)-th page taken from now on moves the buffer *)
+  Definition tree_tight_n (slack : N) (st : tstate) : tstate :=
+    let a := al st in
+    let off := 8 + nextPage a * ps in
+    let cur := if (slack =? 0)%N then off else off + slack * ps + 1 in
+    mkT (root st) (mkAlloc (nextPage a) (freeList a) (leafKeys a) (pagesFree a) cur off) (depth st).
+
   (* Stats(): NumLeafKeys, NumPages, NumPagesFree; white box: nextPage, freePage, len(data) *)
   Definition stat_leaf_keys (st : tstate) : Z := leafKeys (al st).
   Definition stat_pages (st : tstate) : N := nextPage (al st) - 1.
